@@ -987,7 +987,7 @@ def rule_setters(fm, rep, rid='R9', only=None):
         rep.ob(rid, 'ctor/%s-starts-none' % role, ok, fm.format.where(), 'a new formatter has no %s' % role if ok else 'formatter starts with %s = %s' % (role, fmt(v) if v else '?'))
     if only is None or 'tags' in only:
         v = agg.get(fm.roles['tags'])
-        ok = v is not None and term_callee_is(v, 'alloc::vec::Vec::new', 'alloc::vec::Vec::with_capacity')
+        ok = v is not None and is_empty_vec(v)
         rep.ob(rid, 'ctor/tags-start-empty', ok, fm.format.where(), 'a new formatter has no tags')
     spec = {'with_timestamp': ('ts', 'scalar'), 'with_sampling_rate': ('rate', 'scalar'), 'with_container_id': ('cid', 'ref'),
             'with_tag': ('tags', 'kv'), 'with_tag_value': ('tags', 'v')}
